@@ -21,6 +21,8 @@ const (
 	// Plain: Regular without newlines and without ": " (for slots that feed
 	// transports with their own text restrictions).
 	Plain
+	// RegularE: Regular plus the empty string.
+	RegularE
 )
 
 var regularPieces = []string{
@@ -38,7 +40,10 @@ var hostileExtra = []string{
 type StrGen struct {
 	T     *tape.Tape
 	Alpha Alphabet
-	next  int
+	// Long: occasionally produce strings of several hundred bytes with
+	// multi-byte runes (transports that truncate or frame by bytes).
+	Long bool
+	next int
 }
 
 // Token returns a fresh token.
@@ -56,8 +61,11 @@ func (g *StrGen) Str(safe bool) Str { return g.StrA(safe, g.Alpha) }
 // StrA draws a string over an explicit alphabet.
 func (g *StrGen) StrA(safe bool, alpha Alphabet) Str {
 	t := g.T
-	if alpha == Hostile && t.Bool(1, 12) {
+	if (alpha == Hostile || alpha == RegularE) && t.Bool(1, 12) {
 		return Str{V: "", Safe: safe}
+	}
+	if alpha == RegularE {
+		alpha = Regular
 	}
 	tok := g.token(safe)
 	np := t.Draw(4) // number of extra pieces, 0 simplest
@@ -77,6 +85,9 @@ func (g *StrGen) StrA(safe bool, alpha Alphabet) Str {
 		} else {
 			pieces = append([]string{p}, pieces...)
 		}
+	}
+	if g.Long && t.Bool(1, 6) {
+		pieces = append(pieces, strings.Repeat([]string{"é", "世界", "ab世", "Ω "}[t.Draw(4)], 40+t.Draw(120)))
 	}
 	v := strings.Join(pieces, "")
 	if alpha != Hostile {
